@@ -17,4 +17,11 @@ def execOptionsNew (maxCycles : Option Nat) (expected : Nat) : Option (Nat × Na
   else if m < expected then none
   else some (m, max (nextPow2Nat expected % 4294967296) MIN_TRACE_LEN)
 
+/-- `processor/src/trace/mod.rs: finalize_trace`: the length of the execution trace. `clk` executed
+    cycles need one more row for HALT, the chiplet rows one more padding row, every component one
+    random row at the end; the result is the next power of two (at least `MIN_TRACE_LEN`).
+    No capacity hint enters the formula. -/
+def traceLen (clk rangeRows chipletRows : Nat) : Nat :=
+  max MIN_TRACE_LEN (nextPow2Nat (max (max rangeRows (clk + 1)) (chipletRows + 1) + 1))
+
 end Miden
